@@ -29,6 +29,8 @@ A hierarchy is a JSON model
                                      style "pkg" = a top-level package <name> with modules <modnames>; style "top" =
                                      top-level modules <modnames>. Names may repeat names used inside PKG (a top-level
                                      module `m2` next to `c07pkg/m2.py`; package `pkg` next to `c07pkg`)
+     "modnames": [str, ...]          optional: the real module names (default m<k>), e.g. mz_x_x, mz_x, mz / m100, m10, m1: the
+                                     name of a later module is a string prefix of the names of the modules it imports from
      "clsnames": [str, ...]          optional: the real class names (default C<i>); names may repeat across modules, so that
                                      `c07pkg.m2.C0` can derive from `m2.C0` / `pkg.m2.C0`
      "history": {...}                optional, a history on one loader / modules collection (the answer must be the one
@@ -363,7 +365,10 @@ def in_lib(case, m: int) -> bool:
 
 
 def mod_name(case, m: int) -> str:
-    return case["lib"]["modnames"][m] if in_lib(case, m) else f"m{m}"
+    if in_lib(case, m):
+        return case["lib"]["modnames"][m]
+    names = case.get("modnames")
+    return names[m] if names else f"m{m}"
 
 
 def pkg_of(case, m: int) -> str:
